@@ -26,7 +26,7 @@ RULE_FN = ('function level: bounded-exhaustive product patch shape {body, status
            'fault plan {none; request i in 0..3 answered 404/422/409/200-with-empty-body} x foreign write {none; before request '
            '0..3: annotation edit / finalizer added / finalizer removed / delete / delete-and-recreate} on objects carrying foreign '
            'finalizers around kopf\'s own x fns {block, allow, idempotent list edit, status edit, block+status, '
-           'list+status, raising, move spec->status, move status->spec}; non-trivial iff >= 2 requests were sent or a fault/foreign write took effect; distinct by '
+           'list+status, raising, move spec->status, move status->spec, ensure-label(no-op)+list edit with the label removed by the foreign writer}; non-trivial iff >= 2 requests were sent or a fault/foreign write took effect; distinct by '
            '(shape, subresource, observed request kinds, statuses, outcome)')
 
 HEADER = fw.STD_HEADER + 'From KV Require Import Base.Dicts Model.JsonPatch Model.Causes Model.PatchObj.\n'
@@ -74,6 +74,10 @@ _fn_move_to_status = _mk_move('spec', 'status', 'token')       # a value moved f
 _fn_move_to_spec = _mk_move('status', 'spec', 'tok2')          # ... and the other way round: the ops cross the /status split
 
 
+def _fn_ensure_label(body: dict) -> None:      # 'ensure'-style: a no-op on the body the operator knows (the label is there)
+    body.setdefault('metadata', {}).setdefault('labels', {}).setdefault('app', 'demo')
+
+
 def _fn_raise(body: dict) -> None:
     raise TypeError('a transformation that fails')
 
@@ -84,7 +88,7 @@ def make_fn(kind: str) -> Callable[[dict], None]:
         return functools.partial(finalizers.block_deletion, finalizer=FIN)
     if kind == 'allow':
         return functools.partial(finalizers.allow_deletion, finalizer=FIN)
-    return {'listedit': _fn_listedit, 'statusedit': _fn_statusedit, 'append': _fn_append, 'raise': _fn_raise,
+    return {'listedit': _fn_listedit, 'statusedit': _fn_statusedit, 'append': _fn_append, 'raise': _fn_raise, 'ensure_label': _fn_ensure_label,
             'move_to_status': _fn_move_to_status, 'move_to_spec': _fn_move_to_spec}[kind]
 
 
@@ -92,6 +96,7 @@ def fn_term(kind: str, tag: int) -> str:
     f = {'block': f'(block_deletion {cq.cstr(FIN)})', 'allow': f'(allow_deletion {cq.cstr(FIN)})',
          'listedit': '(po_fn_add2 "spec" "items" (JStr "x"))', 'statusedit': '(po_fn_set2 "status" "y" (JNum 2%Z))',
          'append': '(po_fn_append2 "spec" "items" (JStr "z"))', 'raise': 'po_fn_raise',
+         'ensure_label': '(po_fn_ensure3 "metadata" "labels" "app" (JStr "demo"))',
          'move_to_status': '(po_fn_move "spec" "status" "token")', 'move_to_spec': '(po_fn_move "status" "spec" "tok2")'}[kind]
     return f'(mkFn {cq.cnat(tag)} {f})'
 
@@ -108,6 +113,8 @@ def effect_count_ok(kind: str, obj: dict | None) -> bool | None:
         return (obj.get('spec', {}).get('items') or []).count('x') == 1
     if kind == 'statusedit':
         return (obj.get('status') or {}).get('y') == 2
+    if kind == 'ensure_label':
+        return (obj.get('metadata', {}).get('labels') or {}).get('app') == 'demo'
     return None
 
 
@@ -115,6 +122,7 @@ FN_VARIANTS: dict[str, list[str]] = {
     'block': ['block'], 'allow': ['allow'], 'listedit': ['listedit'], 'statusedit': ['statusedit'],
     'block+status': ['block', 'statusedit'], 'list+status': ['listedit', 'statusedit'], 'raise': ['statusedit', 'raise'],
     'move-to-status': ['move_to_status'], 'move-to-spec': ['move_to_spec'],
+    'ensure+list': ['ensure_label', 'listedit'],          # a no-op on the known body next to an effective one
 }
 MOVE_KINDS = {'move_to_status': ('spec', 'token'), 'move_to_spec': ('status', 'tok2')}      # kind -> where the value comes from
 
@@ -184,6 +192,8 @@ class ScriptedSession:
                 gone = [f for f in fins if f != FIN][:1]
                 b['metadata']['finalizers'] = [f for f in fins if f not in gone]
             api.edit(kind, NS, NAME, drop, actor='foreign')
+        elif how == 'unlabel':       # somebody removes the label which an 'ensure' transformation keeps in place
+            api.edit(kind, NS, NAME, lambda b: (b['metadata'].get('labels') or {}).pop('app', None), actor='foreign')
         elif how == 'delete':
             api.delete(kind, NS, NAME, actor='foreign', force=True)
         elif how == 'recreate':
@@ -646,7 +656,7 @@ def monitor_patch_obj(ctx: fw.Ctx, o: dict) -> None:
                             ctx.fail('an accepted JSON-patch batch is not what the transformations yield on the version it was accepted on: '
                                      'the ops were computed from another (stale) body than the one whose version is tested', case,
                                      {'accepted_on': x.before, 'ops': rest, 'ops_give': got, 'transformations_give': want}, sig='ops-from-stale-body')
-            if x.slipped in ('edit', 'fin_add', 'fin_remove') and x.slip_changed and x.status == 200 and not x.injected:
+            if x.slipped in ('edit', 'fin_add', 'fin_remove', 'unlabel') and x.slip_changed and x.status == 200 and not x.injected:
                 ctx.fail('a foreign write slipped in before a JSON-patch batch and the batch was still accepted', case, x.brief(), sig='stale-accepted')
         if x.status == 200 and x.body:
             seen = x.body
@@ -714,10 +724,10 @@ def monitor_patch_obj(ctx: fw.Ctx, o: dict) -> None:
         ctx.count('fn_monitor', 'fn-effect-checked')
 
     # ---- neither lost nor duplicated: the (idempotent) transformations take effect exactly once, now or in the next cycle
-    idem = fn_kinds and all(k in ('block', 'allow', 'listedit', 'statusedit') for k in fn_kinds)
+    idem = fn_kinds and all(k in ('block', 'allow', 'listedit', 'statusedit', 'ensure_label') for k in fn_kinds)
     foreign_kind = desc['slip'][1] if desc.get('slip') else None
     injected_other = any(x.injected and not (x.injected == '422' and x.ctype == CT_JSON) for x in log)
-    if idem and ok and not injected_other and foreign_kind in (None, 'edit', 'fin_add', 'fin_remove') and not desc.get('deleting') and not desc.get('random'):
+    if idem and ok and not injected_other and foreign_kind in (None, 'edit', 'fin_add', 'fin_remove', 'unlabel') and not desc.get('deleting') and not desc.get('random'):
         final = o['api'].get(o['kind'], NS, NAME)
         if remaining is not None:
             final = next_cycle(o, remaining)
@@ -926,7 +936,7 @@ def patch_obj_descs() -> list[dict]:
         for fnv in (list(FN_VARIANTS) if has_fns else [None]):
             for sub in (False, True):
                 for fault in FAULT_PLANS:
-                    for slip in SLIPS:
+                    for slip in SLIPS + ([(i, 'unlabel') for i in range(4)] if fnv == 'ensure+list' else []):
                         # without transformations a foreign finalizer edit differs from the annotation edit only for the
                         # foreign-finalizers monitor: keep it before the first request and with no fault plan
                         if not has_fns and slip is not None and slip[1] in ('fin_add', 'fin_remove') and (slip[0] > 0 or fault is not None):
@@ -1064,6 +1074,7 @@ def differential(ctx: fw.Ctx) -> None:
         cases: list[fw.Case] = []
         scases: list[fw.Case] = []
         seen_terms: set[str] = set()
+        seen_runs: set[tuple[str, str]] = set()
         for desc in corpus_descs(ctx) + patch_obj_descs() + random_descs(ctx, ctx.scale(0, 4000)):
             if desc.get('fn') != 'patch_obj':
                 continue
@@ -1075,8 +1086,16 @@ def differential(ctx: fw.Ctx) -> None:
                 ctx.correspondence_break('D:patch_obj', {'unencodable': str(e), 'case': desc})
                 continue
             # a fault / foreign write planned for a request which is never sent leaves the very same run: evaluate it once
-            if c.term in seen_terms:
+            # the same dialogue may hide different server-side runs (a foreign write of another kind answered by the same 422):
+            # the monitors see every distinct (dialogue, foreign writes that took place); the model is evaluated once per dialogue
+            fired = repr([(i, x.slipped, x.slip_changed) for i, x in enumerate(o['sess'].log) if x.slipped])
+            if (c.term, fired) in seen_runs:
                 ctx.count('fn_product', 'same-run-as-an-earlier-case')
+                continue
+            seen_runs.add((c.term, fired))
+            if c.term in seen_terms:
+                ctx.count('fn_product', 'same-dialogue-other-foreign-write')
+                monitor_patch_obj(ctx, o)
                 continue
             seen_terms.add(c.term)
             ctx.count('fn_product', 'distinct-run')
